@@ -1,6 +1,7 @@
 package main
 
 import (
+	"regexp"
 	"bytes"
 	"fmt"
 	"go/ast"
@@ -418,10 +419,12 @@ func oracleC15(cx *CheckCtx, runs []*CaseRun) []Finding {
 				}
 			}
 		}
-		// file-level layout
+		// file-level layout, for EVERY File.Render of the recipe with the settings as they stand
+		// at that point (comments and CanonicalPath may be set between renders)
 		var headers, pkgc []string
 		canonical := ""
-		isFile := false
+		everCanonical := false
+		ri := -1
 		for _, o := range cr.Case.Ops {
 			switch o.Kind {
 			case OpHeader:
@@ -431,67 +434,28 @@ func oracleC15(cx *CheckCtx, runs []*CaseRun) []Finding {
 			case OpSet:
 				if o.Str[0] == "canonical" {
 					canonical = o.Str[1]
-				}
-			case OpRender:
-				isFile = true
-			}
-		}
-		if !isFile || (len(headers) == 0 && len(pkgc) == 0 && canonical == "") {
-			continue
-		}
-		cx.hist("file-level-comment-cases")
-		fset := token.NewFileSet()
-		f, err := parser.ParseFile(fset, "", out, parser.ParseComments)
-		if err != nil {
-			continue
-		}
-		doc := ""
-		if f.Doc != nil {
-			doc = f.Doc.Text()
-		}
-		rawDoc := ""
-		if f.Doc != nil {
-			for _, cm := range f.Doc.List {
-				rawDoc += cm.Text + "\n"
-			}
-		}
-		for _, h := range headers {
-			first := strings.TrimSpace(strings.Split(strings.TrimSpace(h), "\n")[0])
-			// the header is in the doc when one of the doc's comment lines IS the header's first
-			// line (a substring test would take the header " //" for part of every comment)
-			inDoc := false
-			if f.Doc != nil {
-				for _, cm := range f.Doc.List {
-					for _, l := range strings.Split(cm.Text, "\n") {
-						l = strings.TrimSpace(l)
-						if l == first || strings.TrimSpace(strings.TrimPrefix(l, "//")) == first || strings.TrimSpace(strings.TrimPrefix(l, "/*")) == first {
-							inDoc = true
-						}
+					if canonical != "" {
+						everCanonical = true
 					}
 				}
 			}
-			if first != "" && inDoc && !containsAny(pkgc, first) {
-				shape := "header-in-package-doc"
-				if strings.Contains(h, "\f") {
-					// go/printer counts a form feed inside a comment as a line break when it tracks
-					// positions, so the blank line jennifer writes after the header is dropped
-					shape = "header-with-formfeed-in-package-doc"
-				}
-				fs = append(fs, Finding{Property: "C15", Shape: shape, What: fmt.Sprintf("header comment %q became part of the package doc", first), Case: cr.Case.Text(), Observed: trunc(out)})
+			if !o.IsRender() {
+				continue
 			}
-		}
-		for _, p := range pkgc {
-			first := strings.TrimSpace(strings.Split(strings.TrimSpace(p), "\n")[0])
-			if first != "" && !strings.Contains(rawDoc, first) {
-				fs = append(fs, Finding{Property: "C15", Shape: "package-comment-not-doc", What: fmt.Sprintf("package comment %q is not in the package doc (doc=%q)", first, doc), Case: cr.Case.Text(), Observed: trunc(out)})
+			ri++
+			if ri >= len(cr.Real) {
+				break
 			}
-		}
-		if canonical != "" {
-			// the annotation must be a comment on the package clause line: // import "<path>"
-			want := fmt.Sprintf("// import %q", canonical)
-			if !strings.Contains(out, "package "+f.Name.Name+" "+want) {
-				fs = append(fs, Finding{Property: "C15", Shape: "canonical-annotation", What: "canonical import path annotation missing or malformed", Case: cr.Case.Text(), Expected: want, Observed: trunc(out)})
+			if o.Kind != OpRender || cr.Real[ri].Class != "ok" {
+				continue
 			}
+			if canonical == "" && everCanonical && staleAnnotationRe.MatchString(cr.Real[ri].Out) {
+				fs = append(fs, Finding{Property: "C15", Shape: "canonical-annotation-stale", What: fmt.Sprintf("render #%d: CanonicalPath is empty at this point but the package clause still carries an import annotation", ri+1), Case: cr.Case.Text(), Observed: trunc(cr.Real[ri].Out)})
+			}
+			if len(headers) == 0 && len(pkgc) == 0 && canonical == "" {
+				continue
+			}
+			fs = append(fs, fileLevelComments(cx, cr, ri, cr.Real[ri].Out, headers, pkgc, canonical)...)
 		}
 	}
 	return fs
@@ -1106,5 +1070,70 @@ func d7Membership(cx *CheckCtx, runs []*CaseRun) []Finding {
 	cx.Extra["d7_membership_cases"] = len(outs)
 	cx.Extra["d7_membership_members"] = members
 	cx.Extra["d7_membership_model_runs"] = len(variants)
+	return fs
+}
+
+var staleAnnotationRe = regexp.MustCompile(`(?m)^package [A-Za-z_0-9]+ // import "`)
+
+// fileLevelComments: placement of header comments, package comments and the canonical-path
+// annotation in one formatted File.Render output.
+func fileLevelComments(cx *CheckCtx, cr *CaseRun, ri int, out string, headers, pkgc []string, canonical string) []Finding {
+	var fs []Finding
+	func() {
+		cx.hist("file-level-comment-cases")
+		fset := token.NewFileSet()
+		f, err := parser.ParseFile(fset, "", out, parser.ParseComments)
+		if err != nil {
+			return
+		}
+		doc := ""
+		if f.Doc != nil {
+			doc = f.Doc.Text()
+		}
+		rawDoc := ""
+		if f.Doc != nil {
+			for _, cm := range f.Doc.List {
+				rawDoc += cm.Text + "\n"
+			}
+		}
+		for _, h := range headers {
+			first := strings.TrimSpace(strings.Split(strings.TrimSpace(h), "\n")[0])
+			// the header is in the doc when one of the doc's comment lines IS the header's first
+			// line (a substring test would take the header " //" for part of every comment)
+			inDoc := false
+			if f.Doc != nil {
+				for _, cm := range f.Doc.List {
+					for _, l := range strings.Split(cm.Text, "\n") {
+						l = strings.TrimSpace(l)
+						if l == first || strings.TrimSpace(strings.TrimPrefix(l, "//")) == first || strings.TrimSpace(strings.TrimPrefix(l, "/*")) == first {
+							inDoc = true
+						}
+					}
+				}
+			}
+			if first != "" && inDoc && !containsAny(pkgc, first) {
+				shape := "header-in-package-doc"
+				if strings.Contains(h, "\f") {
+					// go/printer counts a form feed inside a comment as a line break when it tracks
+					// positions, so the blank line jennifer writes after the header is dropped
+					shape = "header-with-formfeed-in-package-doc"
+				}
+				fs = append(fs, Finding{Property: "C15", Shape: shape, What: fmt.Sprintf("header comment %q became part of the package doc", first), Case: cr.Case.Text(), Observed: trunc(out)})
+			}
+		}
+		for _, p := range pkgc {
+			first := strings.TrimSpace(strings.Split(strings.TrimSpace(p), "\n")[0])
+			if first != "" && !strings.Contains(rawDoc, first) {
+				fs = append(fs, Finding{Property: "C15", Shape: "package-comment-not-doc", What: fmt.Sprintf("package comment %q is not in the package doc (doc=%q)", first, doc), Case: cr.Case.Text(), Observed: trunc(out)})
+			}
+		}
+		if canonical != "" {
+			// the annotation must be a comment on the package clause line: // import "<path>"
+			want := fmt.Sprintf("// import %q", canonical)
+			if !strings.Contains(out, "package "+f.Name.Name+" "+want) {
+				fs = append(fs, Finding{Property: "C15", Shape: "canonical-annotation", What: "canonical import path annotation missing or malformed", Case: cr.Case.Text(), Expected: want, Observed: trunc(out)})
+			}
+		}
+	}()
 	return fs
 }
